@@ -163,6 +163,12 @@ def discharged(b, bb):
                 return "constant index %d into array of length %d" % (ix, ln)
         if kind.startswith("Overflow:") and all(o[0] == "k" for o in ops):
             return "constant operands"
+        if kind == "Overflow:Other" and len(ops) == 2:
+            # MIR's Overflow assert exists for Add/Sub/Mul/Shl/Shr/Div/Rem; the driver names the first five, so this is the
+            # `MIN / -1` check of a signed division or remainder: impossible when the divisor is a constant other than -1
+            dv = konst(ops[1])
+            if dv is not None and dv != -1:
+                return "signed division/remainder by the constant %d (only MIN / -1 overflows)" % dv
         if kind in ("DivisionByZero", "RemainderByZero") and t[1][0] in ("c", "m") and not t[1][1][1]:
             sd = b.single_def(t[1][1][0])
             if sd and sd[0] == "stmt" and sd[3][0] == "bin" and sd[3][1] == "Eq":
